@@ -322,3 +322,8 @@ def run(chk, repo):
     from rules.shared import kwname
     chk.clauses.append('C08.kw (shared R-THREAD) parameters handed on as keyword arguments keep their name: no `a=b` between two parameters of one function')
     kwname(chk, repo, 'C08.kw', ['cli.call_novel_orf'], floor=0)
+    from rules.shared import w2f_scan_complete
+    chk.clauses.append('C08.i (shared R-COVER) every tryptophan of a peptide, the last residue included, gets its W>F candidate')
+    w2f_scan_complete(chk, repo, 'C08.i')
+
+
